@@ -217,6 +217,8 @@ func c28check(c *ev.Ctx, name string, model porcupine.Model, ops []porcupine.Ope
 func c28Lin(c *ev.Ctx) {
 	c28BufferDirected(c)
 	c.Parallel(c.Pick(40, 600), 4, func(i int) { c28PoolFlushAtomic(c, i) })
+	c.Parallel(c.Pick(40, 600), 4, func(i int) { c28PoolDropsDuringFlush(c, i) })
+	c.Parallel(c.Pick(20, 300), 4, func(i int) { c28BigBatches(c, i) })
 	n := c.Pick(2400, 60000)
 	c.Parallel(n, 8, func(i int) {
 		r := c.Rand("lin", i)
